@@ -181,6 +181,7 @@ public:
         std::vector<uint64_t> last_beat(nworkers, 0);
         std::vector<double> last_change(nworkers, now_s());
         // resume info for a replacement worker
+        std::vector<char> crashed_before(nworkers, 0); std::vector<uint64_t> last_unit(nworkers, 0), last_sub(nworkers, 0);
         auto spawn = [&](int wid, bool resume, uint64_t unit, uint64_t sub) {
             fflush(nullptr);
             pid_t p = fork();
@@ -299,8 +300,17 @@ public:
             if (vf) { fclose(vf); vf = nullptr; }
             worker_id = save;
             c.active.store(0);
-            // replacement worker resumes the same unit after the failing sub-case
-            spawn(w, true, unit, sub + 1);
+            // replacement worker resumes the same unit after the failing sub-case - unless that made no progress last time
+            // (a harness whose units are not resumable, or a unit that dies at once again and again): the unit is then
+            // abandoned, which makes the run incomplete (capped), never silent
+            bool stuck = crashed_before[w] && last_unit[w] == unit && sub <= last_sub[w];
+            crashed_before[w] = true; last_unit[w] = unit; last_sub[w] = sub;
+            if (res.crashes + res.hangs > 2000) { sh->capped.store(1); sh->next_unit.store(total_units); }   // a tree that crashes everywhere: stop exploring, report what was seen
+            // harnesses that describe their cases by text have no (unit, sub) to resume from: the rest of that unit is skipped
+            bool resumable = c.text[0] == 0;
+            if (stuck) sh->capped.store(1);
+            if (stuck || !resumable) { sh->units_done.fetch_add(1); spawn(w, false, 0, 0); }
+            else spawn(w, true, unit, sub + 1);
         }
         res.units_done = sh->units_done.load();
         res.capped = sh->capped.load() != 0 || res.units_done < total_units;
